@@ -130,3 +130,8 @@ package api
 //@   trusted
 //@   pure
 //@   ensures a == AddrOf(pk)
+
+//@ func NewRuntimeAddress
+//@   trusted
+//@   pure
+//@   ensures a == ufr[Address]("runtimeAddrOf", id)
